@@ -102,7 +102,7 @@ func tryConnectWith(serverHS, clientHS func(net.Conn) (net.Conn, error)) (bool, 
 	}
 	defer a.Close()
 	defer b.Close()
-	dl := time.Now().Add(5 * time.Second)
+	dl := time.Now().Add(30 * time.Second)
 	a.SetDeadline(dl)
 	b.SetDeadline(dl)
 	var wg sync.WaitGroup
